@@ -62,7 +62,7 @@ CHECKS = {
             "Trusts refeval/refsim.",
             "DESIGN.md 5/C11"),
     "C15": ("fault_enumeration",
-            "exhaustive fault enumeration: every response position x 11 fault kinds injected by the reference solver; killable child processes",
+            "exhaustive fault enumeration: every response position x 12 fault kinds injected by the reference solver; killable child processes",
             "For fixed safe/unsafe systems and each engine (bmc, pdr with/without cores, a bare SolverContext session) a clean run determines the response-bearing points; every position up to the bound x every fault kind is injected; the run must return an error or Unknown within 90 s (killed otherwise; system/engine pairs with a clean run above 6 s are excluded and counted), never a verdict or panic, and error messages must arrive verbatim. Exhaustive within the stated bounds.",
             "A faulted run exceeding 90 s (clean runs of the enumerated pairs < 6 s, typically < 1 s) counts as blocking forever.",
             "DESIGN.md 5/C15"),
